@@ -11,7 +11,7 @@ func num(n int) promref.Val { return promref.Val{K: promref.VNum, N: n, P: -1} }
 
 func leaf(id int) *promref.Handler { return &promref.Handler{ID: id, K: promref.HReturn, V: num(id)} }
 
-// pinned regression witnesses (3: a corrected false alarm of the harness). 0..2: the nested-drain defect (inbox/C10-nested-drain.md): a reaction whose handler is a
+// pinned regression witnesses (3: a corrected false alarm of the harness; 4: await with an abrupt PromiseResolve). 0..2: the nested-drain defect (inbox/C10-nested-drain.md): a reaction whose handler is a
 // Go native calling a Callable drains the job queue re-entrantly when the outermost entry was a Callable / a Go-held resolver.
 var pinned = []*promref.Program{
 	// p0 = Promise.resolve(1); p0.then(gonative(h1 { p0.then(h2) })); p0.then(h3)      expected h1 h3 h2
@@ -42,10 +42,23 @@ var pinned = []*promref.Program{
 		{K: promref.OpCatch, Dst: 2, Src: 0, R: &promref.Handler{ID: 2, K: promref.HReturn, V: promref.Val{K: promref.VProm, P: 1}}},
 		{K: promref.OpStatic, St: promref.StAllSettled, Dst: 4, Items: []promref.Val{{K: promref.VProm, P: 2}}},
 	}}},
+	// inbox/C10-await-promiseresolve-abrupt.md (fixed in /repo 8a319ed): await of a promise whose "constructor" getter throws -
+	// the exception must be thrown at the await (catchable inside the async function), also when the await is reached from a job
+	{Segs: [][]promref.Op{{
+		{K: promref.OpStatic, St: promref.StResolve, Dst: 0, V: num(1)},
+		{K: promref.OpSetCtor, Dst: -1, Src: 0, Ctor: &promref.CtorSpec{Getter: true, Throws: true, N: 42, ID: 9}},
+		{K: promref.OpAsync, Dst: 1, ID: 3, Body: []promref.AStep{{K: promref.AAwait, V: promref.Val{K: promref.VProm, P: 0}, Catch: true}}},
+		{K: promref.OpThen, Dst: -1, Src: 1, F: leaf(4), R: leaf(5)},
+		{K: promref.OpAsync, Dst: 2, ID: 6, Body: []promref.AStep{{K: promref.AAwait, V: num(0)}, {K: promref.AAwait, V: promref.Val{K: promref.VProm, P: 0}}}},
+		{K: promref.OpThen, Dst: -1, Src: 2, F: leaf(7), R: leaf(8)},
+		{K: promref.OpLog, Dst: -1, ID: 10},
+		{K: promref.OpStatic, St: promref.StAll, Dst: 3, Items: []promref.Val{num(2), {K: promref.VProm, P: 0}}},
+		{K: promref.OpStatic, St: promref.StResolve, Dst: 4, V: promref.Val{K: promref.VProm, P: 0}},
+	}}},
 }
 
 func pinnedSignature(k int, f *found) string {
-	return fmt.Sprintf("pinned%d:%s:%s", k, f.v.Monitor, entryNames[f.cfg.Entry])
+	return fmt.Sprintf("pinned%d:%s", k, f.v.Monitor) // the entry variant of the interrupt sweep depends on the seed
 }
 
 func runPinned(c *core.Ctx) core.Result {
